@@ -295,6 +295,7 @@ func (vm *Vm) runCatch(ctx context.Context, b []byte) ([]byte, error) {
 			return b, err
 		}
 		b = append([]byte{}, bh...)
+		vm.Reset()
 	}
 	return b, nil
 }
